@@ -84,11 +84,15 @@ mutual
 end
 
 /-! ## transformation functions (`patch.fns`) — the two the framework itself queues:
-      `functools.partial(finalizers.block_deletion, finalizer=f)` and `…allow_deletion…`. -/
+      `functools.partial(finalizers.block_deletion, finalizer=f)` and `…allow_deletion…`, and a user's
+      own function that edits fields of the body in place (`mergeWith`). -/
 
 inductive Fn where
   | addFinalizer (f : String)      -- finalizers.block_deletion
   | removeFinalizer (f : String)   -- finalizers.allow_deletion
+  | mergeWith (q : List (String × J))
+      -- a USER's transformation function (`patch.fns.append(fn)`): edits the body in place the way the
+      -- RFC 7386 content `q` says (set / overwrite / delete / nested merge), e.g. `body['spec']['ratio'] = 1.0`
   deriving Repr
 
 /-- `body.get('metadata', {})` as bindings; a present non-mapping `metadata` makes the real
@@ -167,6 +171,10 @@ def applyFn (body : J) : Fn → Except DictErr J
         match dropEmptyFins b1 with
         | .error e => .error e
         | .ok b2 => dropEmptyMeta b2
+  | .mergeWith q =>
+      match body with
+      | .obj tk => .ok (.obj (mergeKvs tk q))
+      | _ => .error .typeError
 
 def applyFns (body : J) : List Fn → Except DictErr J
   | [] => .ok body
@@ -258,6 +266,17 @@ def asJsonPatch {Op : Type} (fromDiff : J → J → List Op) (body : J) (patch :
   if patch.isEmpty && fns.isEmpty then .ok []
   else match mutated body patch fns with
     | .ok toBe => .ok (fromDiff body toBe)
+    | .error e => .error e
+
+/-- REJECTED VARIANT of `as_json_patch` (never the code; the class of the seeded change C18f): after the
+    merge instructions and the functions, `if body_to_be == body_as_is: return []` — "nothing changed,
+    skip the costly diff" — with PYTHON's `==` (`J.pyEq`: `True == 1`, `False == 0`; floats likewise,
+    outside `J`). `Props/C18.lean: eq_shortcut_witness` shows it drops a requested type change. -/
+def asJsonPatchEqShortcut {Op : Type} (fromDiff : J → J → List Op) (body : J) (patch : List (String × J))
+    (fns : List Fn) : Except DictErr (List Op) :=
+  if patch.isEmpty && fns.isEmpty then .ok []
+  else match mutated body patch fns with
+    | .ok toBe => if J.pyEq toBe body then .ok [] else .ok (fromDiff body toBe)
     | .error e => .error e
 
 /-- what the apiserver does with a response: apply the patch when there is one. `applyOps` stands
